@@ -49,8 +49,8 @@ meta("C20",
      rule="random lists of 2-5 trains (k/16 grid) with duplicates across trains and empty trains, bin sizes 1/n and non-dividing sizes; 300+ seeded Poisson trains; distinct by canonical encoding",
      assumptions=[A_FLOAT, A_RQ, "np.histogram/np.linspace/np.random are numpy primitives: modelled (hist_counts) or taken as inputs (draws)"])
 meta("C11",
-     proved="df_add: interior of the result = one entry per distinct event time, sums where shared (df_add_spec), edges kept, result well-formed, commutative on events; integral = sums over events strictly inside (a,b) / all events / several intervals; average = ratio or 1; integral additive under add on every open interval; plottable k=0 = y/mp",
-     tested_only="smoothing window k > 0 of get_plottable_data (model df_plottable vs implementation for k = 1,2,3); histories of adds through the multivariate profiles",
+     proved="df_add: interior of the result = one entry per distinct event time, sums where shared (df_add_spec), edges kept, result well-formed, commutative on events; integral = sums over events strictly inside (a,b) / all events / several intervals; average = ratio or 1; integral additive under add on every open interval; plottable k=0 = y/mp; smoothing window k>0 = windowed mean of unit contributions (smooth_spec), y/mp when the multiplicity reaches the window, values in [0,1]",
+     tested_only="histories of adds through the multivariate profiles (C06); model = /repo",
      rule="random discrete profiles with <= 4 events on the k/8 grid, events on the edge times, operands without events, multiplicities 1-3; all intervals on the k/16 grid sampled; distinct by canonical encoding",
      assumptions=[A_FLOAT, A_CY, A_RQ])
 
@@ -63,12 +63,12 @@ meta("C03",
      tested_only="model = /repo (kernels 5/6/7/52 both backends incl. exact ties on the dyadic grid); implementation vs extracted sync_spec/single_spec",
      assumptions=[A_FLOAT, A_CY, A_RQ])
 meta("C04",
-     proved="order profile = order_spec and directionality values = dir_spec for ALL valid pairs (same coincidence relation as C03); sign convention per pair; order values in {-1,0,1}; swap negates the order profile / exchanges value lists / negates un-normalised directionality (both backends); D(A,A)=0; matrix antisymmetric, zero diagonal; synfire relation F = 2*sum_{i<j} D_ij/((N-1)*spikes) (both backends); index selections = sub-list",
-     tested_only="model = /repo (kernels 8/9, API 63/71-75 with index selections, both backends); per-spike values averaged over N-1 trains via correspondence of directionality_values; all-empty input is known finding F13",
+     proved="order profile = order_spec and directionality values = dir_spec for ALL valid pairs (same coincidence relation as C03); sign convention per pair; order values in {-1,0,1}; swap negates the order profile / exchanges value lists / negates un-normalised directionality (both backends); D(A,A)=0; matrix antisymmetric, zero diagonal; synfire relation F = 2*sum_{i<j} D_ij/((N-1)*spikes) (both backends); index selections = sub-list; per-spike values of N trains = mean over the other N-1 trains of the pairwise value",
+     tested_only="model = /repo (kernels 8/9, API 63/71-75 with index selections, both backends); all-empty input is known finding F13",
      assumptions=[A_FLOAT, A_CY, A_RQ])
 meta("C05",
-     proved="bivariate: ISI distance = pwc average of the profile for both backends, whole recording and every sub-interval; compiled single-pass SPIKE distance = average of the profile; SPIKE-Sync values = event sums of the profile strictly inside the interval (both backends), ratio with the convention 1; order (c, mp) = profile sums (both backends); backends agree",
-     tested_only="multivariate scalar vs average of the multivariate profile over sub-intervals (oracle on the implementation, both backends; theorem in progress in Lem_MultiAPI.v); SPIKE distance over sub-intervals on the compiled path goes through the profile by construction",
+     proved="bivariate: ISI distance = pwc average of the profile for both backends, whole recording and every sub-interval; compiled single-pass SPIKE distance = average of the profile; SPIKE-Sync values = event sums of the profile strictly inside the interval (both backends), ratio with the convention 1; order (c, mp) = profile sums (both backends); backends agree; multivariate ISI (C06), SPIKE and SPIKE-Sync scalars = average / ratio of the multivariate profile on every interval",
+     tested_only="MRTS='auto' plumbing of the scalar vs the profile route and index selections through the public API (oracle on the implementation, both backends); multivariate order value vs order profile (oracle; the pooled sums are C04's synfire theorem)",
      assumptions=[A_FLOAT, A_CY, A_RQ])
 meta("C08",
      proved="shift and scale (with MRTS, max_tau scaled) transform only the time axis of the ISI, SPIKE, SPIKE-Sync, order profiles and leave directionality values / filter indicators unchanged; time reversal mirrors the ISI, SPIKE (limits exchanged) and SPIKE-Sync profiles, mirrors and negates order/directionality (spec level), integrals unchanged",
@@ -90,8 +90,8 @@ meta("C12",
      tested_only="the .pyx files themselves are executed only through the de-cythoniser (Python semantics incl. cdivision emulation) against the model and against the fall-back on identical arguments; literal-duplicate routines (three add routines) share one model; C-level behaviour of a real build is outside",
      assumptions=[A_FLOAT, A_CY, A_RQ])
 meta("C17",
-     proved="filter = declarative filter_spec for all lists of valid trains, thresholds, max_tau, MRTS, both backends; kept iff count STRICTLY above thr*(N-1), count from the pairwise coincidence definition; per-spike scan = pairwise definition; kept/removed = partition in original order on the original interval; monotone in the threshold",
-     tested_only="link of the per-spike count to the entry of the multivariate SPIKE-Sync profile (oracle on the implementation for spike times unique to one train); inputs unchanged (snapshot monitor)",
+     proved="filter = declarative filter_spec for all lists of valid trains, thresholds, max_tau, MRTS, both backends; kept iff count STRICTLY above thr*(N-1), count from the pairwise coincidence definition; per-spike scan = pairwise definition; kept/removed = partition in original order on the original interval; monotone in the threshold; for a spike time unique to its train the multivariate profile entry has multiplicity N-1 and value = the count (kept iff value/multiplicity > thr)",
+     tested_only="inputs unchanged (snapshot monitor); model = /repo",
      rule="random lists of 2-5 trains (k/16 grid) + all triples of <=2-spike trains on the 5-point grid (sampled), thresholds k/(N-1) hit exactly and k/16; distinct by canonical encoding",
      assumptions=[A_FLOAT, A_CY, A_RQ])
 meta("C19",
@@ -101,8 +101,8 @@ meta("C19",
      assumptions=[A_FLOAT, "PARTIAL BY NATURE: float formatting/parsing is CPython/libc behaviour outside the model (tokens are opaque)"])
 
 meta("C06",
-     proved="divide-and-conquer summation = plain sum for closed associative add routines; ISI multivariate profile = mean of the N(N-1)/2 pair profiles at every time, breakpoints = strictly increasing union, independent of list order (representation equality); multivariate ISI distance = mean of pair distances = average of the multivariate profile on every interval, order independent; SPIKE-Sync multivariate profile = per-time sums of counts/multiplicities over all pairs, order independent; matrices = bivariate values, symmetric, diagonal 0 / 1; generic pair mean invariant under permutation for symmetric measures",
-     tested_only="SPIKE multivariate profile = mean of pair profiles at sample times and one-sided limits (oracle on the implementation, both backends; the piecewise-linear add lemmas it needs are proved in Lem_Pwl/Lem_MultiAPI but the assembly is not); permutation invariance of the SPIKE results (oracle)",
+     proved="SPIKE multivariate profile: both one-sided limits at every time = mean of the pair limits, breakpoints = union; divide-and-conquer summation = plain sum for closed associative add routines; ISI multivariate profile = mean of the N(N-1)/2 pair profiles at every time, breakpoints = strictly increasing union, independent of list order (representation equality); multivariate ISI distance = mean of pair distances = average of the multivariate profile on every interval, order independent; SPIKE-Sync multivariate profile = per-time sums of counts/multiplicities over all pairs, order independent; matrices = bivariate values, symmetric, diagonal 0 / 1; generic pair mean invariant under permutation for symmetric measures",
+     tested_only="permutation invariance of the SPIKE multivariate profile as a representation (oracle on the implementation; pointwise it follows from the mean theorem); model = /repo",
      rule="random lists of 2-5 trains (k/16 grid, empty / repeated / shared-spike trains) + all triples of <=2-spike trains on the 5-point grid (sampled); one random permutation per list; distinct by canonical encoding",
      assumptions=[A_FLOAT, A_CY, A_RQ])
 meta("C07",
